@@ -6,7 +6,11 @@ import Frp.Props.C06
   `Close()` for http, https and tcpmux proxies interleaved with real routed requests on
   Frp/Model/VhostReg.lean, and evaluates the C06 predicate on the implementation's own answers with
   respect to the routes the LIVE proxies stand for (`VhostReg.liveRoutes`, cf.
-  `C06.reg_lookup_most_specific`, `C06.reg_table_eq_live`).
+  `C06.reg_lookup_most_specific`, `C06.reg_table_eq_live`).  Requests do not touch the model state
+  (`C06.traffic_leaves_no_trace`): the oracle for a request repeated after any number of registration changes is
+  the table at that moment (`C06.lookup_depends_only_on_table`, `C06.traffic_most_specific`).  `areq` / the long
+  form of `run` add the credentials of http routes (`VhostReg.checkAuth`; a group's route carries its first
+  member's — `C06.httpGroup_creds_witness`, switch `VhostReg.groupChecksCreds`).
 -/
 namespace Frp
 namespace Engines
@@ -17,6 +21,12 @@ structure VRegState where
   http  : St := St.empty
   https : St := St.empty
   mux   : St := St.empty
+  /-- httpUser / httpPassword of the http proxies started so far (newest first) -/
+  pc    : List (Nat × Creds) := []
+  /-- the credentials in the route config of a group object = its first member's (`tmp := routeConfig`) -/
+  gc    : List (Nat × Creds) := []
+
+def vregCreds (l : List (Nat × Creds)) (k : Nat) : Creds := (l.lookup k).getD ([], [])
 
 def vregList (t : String) : Option (List Str) :=
   if t = "-" then some [] else (t.splitOn ",").mapM unhx
@@ -73,11 +83,61 @@ def vregLookup (T : Tab) (live : List Route) (canon specHost path user : Str) (p
   let prop := if plain then ans.map (fun r => C06.holdsOn live specHost path user r) else none
   verdictOf ms impl prop
 
+/-- `run` of an http proxy configured with the credentials `cr` -/
+def vregRunHttp (st : VRegState) (id : Nat) (c : Cfg) (cr : Creds) (impl : String) : VRegState × Verdict :=
+  -- the repaired `HTTPGroup.Register` (switch `groupChecksCreds`) refuses, at the proxy's first registration,
+  -- to join a group whose route carries other credentials: ErrGroupParamsInvalid, nothing registered
+  let refused :=
+    groupChecksCreds && decide (c.group ≠ []) && decide (triples st.sh c ≠ []) &&
+      (match st.http.tab.G.get c.group with
+       | some g => decide (g.members ≠ []) && decide (vregCreds st.gc g.gid ≠ cr)
+       | none => false)
+  if refused then (st, verdictOf "params" impl) else
+  let (S', r) := VhostReg.run st.sh st.http id c
+  let st' := { st with http := S' }
+  let st' := if r = .ok then
+      let st1 := { st' with pc := (id, cr) :: st'.pc }
+      match S'.tab.G.get c.group with
+      | some g => if c.group ≠ [] ∧ g.members.map (·.2) = [id] then { st1 with gc := (g.gid, cr) :: st1.gc } else st1
+      | none => st1
+    else st'
+  (st', verdictOf (vregRes r) impl)
+
+/-- a request carrying the basic-auth pair (u, pw): `authorize` = `CheckAuth` against the credentials of the
+    route it resolves to (401), then forwarded as every request is.  Property predicates on the implementation's
+    answer `<id>:<kind>:<c>`: C06 `HoldsOn` w.r.t. the live proxies, and — the clause of C07 / C13 — the pair
+    satisfies the credentials proxy `id` ITSELF is configured with (`C06.credsOk`). -/
+def vregAuthLookup (st : VRegState) (canon specHost path u pw : Str) (plain : Bool) (impl : String) : Verdict :=
+  let T := st.http.tab
+  let live := liveRoutes st.http.hs
+  let parts := impl.splitOn ":"
+  let implId : Option Nat := match parts with
+    | [i, _, _] => i.toNat?
+    | _ => none
+  let ms := match getVhost T.R canon path u with
+    | none => "none"
+    | some r =>
+      let rc := if r.payload % 2 = 0 then vregCreds st.pc (r.payload / 2) else vregCreds st.gc (r.payload / 2)
+      if !checkAuth rc u pw then "401" else
+      let ids := servers T r.payload
+      match implId with
+      | some i =>
+        if ids.contains i then
+          s!"{i}:{if r.payload % 2 = 0 then "p" else "g"}:{if checkAuth (vregCreds st.pc i) u pw then "c1" else "c0"}"
+        else "one-of:" ++ ToString.toString ids
+      | none => "one-of:" ++ ToString.toString ids
+  let prop : Option Bool :=
+    if impl = "none" then (if plain then some (C06.holdsOn live specHost path u none) else none)
+    else match implId with
+      | some i => some ((!plain || C06.holdsOn live specHost path u (some i)) && C06.credsOk (vregCreds st.pc i) u pw)
+      | none => none
+  verdictOf ms impl prop
+
 def vregStep (st : VRegState) (tok : List String) (impl : String) : VRegState × Verdict :=
   match tok with
   | ["reset", sh] =>
     match unhx sh with
-    | some sh => ({ sh := sh }, verdictOf "-" impl)
+    | some sh => ({ sh := sh }, verdictOf "-" impl)   -- a new server: every table, every proxy gone
     | none => (st, .bad "reset")
   | ["run", id, typ, name, ds, sub, ls, u, g, gk] =>
     match id.toNat?, unhx name, vregList ds, unhx sub, vregList ls, unhx u, unhx g, unhx gk with
@@ -85,10 +145,8 @@ def vregStep (st : VRegState) (tok : List String) (impl : String) : VRegState ×
       if vregLive st id then (st, verdictOf "busy" impl) else
       match typ with
       | "http" =>
-        let c : Cfg := { name := name, domains := ds, sub := sub, locations := ls, user := u,
-                         group := g, groupKey := gk }
-        let (S', r) := VhostReg.run st.sh st.http id c
-        ({ st with http := S' }, verdictOf (vregRes r) impl)
+        vregRunHttp st id { name := name, domains := ds, sub := sub, locations := ls, user := u,
+                            group := g, groupKey := gk } ([], []) impl
       | "https" =>
         -- HTTPSProxy.Run: one Muxer.Listen per domain, Location = "", RouteByHTTPUser = ""
         let c : Cfg := { name := name, domains := ds, sub := sub, locations := [], user := [],
@@ -103,6 +161,16 @@ def vregStep (st : VRegState) (tok : List String) (impl : String) : VRegState ×
         ({ st with mux := S' }, verdictOf (vregRes r) impl)
       | _ => (st, .bad "run type")
     | _, _, _, _, _, _, _, _ => (st, .bad "run")
+  | ["run", id, "http", name, ds, sub, ls, u, g, gk, hu, hp] =>
+    match id.toNat?, unhx name, vregList ds, unhx sub, vregList ls, unhx u, unhx g, unhx gk, unhx hu, unhx hp with
+    | some id, some name, some ds, some sub, some ls, some u, some g, some gk, some hu, some hp =>
+      if vregLive st id then (st, verdictOf "busy" impl) else
+      vregRunHttp st id { name := name, domains := ds, sub := sub, locations := ls, user := u,
+                          group := g, groupKey := gk } (hu, hp) impl
+    | _, _, _, _, _, _, _, _, _, _ => (st, .bad "run")
+  | "run" :: id :: typ :: name :: ds :: sub :: ls :: u :: g :: gk :: _ :: _ :: [] =>
+    -- https / tcpmux written in the long form: the credentials are not part of what is modelled here
+    vregStep st ["run", id, typ, name, ds, sub, ls, u, g, gk] impl
   | ["close", id] =>
     match id.toNat? with
     | some id =>
@@ -114,8 +182,22 @@ def vregStep (st : VRegState) (tok : List String) (impl : String) : VRegState ×
     | some n, some p, some path, some u =>
       let canon := (Host.canonicalHost (C06.spell n (d = "1") p)).getD []
       let plain := decide (C06.PlainName n ∧ C06.PortPlain p)
+      -- the request carries the pair (u, ""): a route protected by other credentials answers 401 and hands the
+      -- request to nobody — which route that was cannot be seen from outside
+      let refused := match getVhost st.http.tab.R canon path u with
+        | some r => !checkAuth (if r.payload % 2 = 0 then vregCreds st.pc (r.payload / 2)
+                                else vregCreds st.gc (r.payload / 2)) u []
+        | none => false
+      if refused then (st, verdictOf "none" impl) else
       (st, vregLookup st.http.tab (liveRoutes st.http.hs) canon (toLower n) path u plain impl)
     | _, _, _, _ => (st, .bad "hreq")
+  | ["areq", n, d, p, path, u, pw] =>
+    match unhx n, vregPort p, unhx path, unhx u, unhx pw with
+    | some n, some p, some path, some u, some pw =>
+      let canon := (Host.canonicalHost (C06.spell n (d = "1") p)).getD []
+      let plain := decide (C06.PlainName n ∧ C06.PortPlain p)
+      (st, vregAuthLookup st canon (toLower n) path u pw plain impl)
+    | _, _, _, _, _ => (st, .bad "areq")
   | ["creq", n, d, p, u] =>
     match unhx n, vregPort p, unhx u with
     | some n, some p, some u =>
